@@ -203,7 +203,7 @@ KNOWN = ["rand", "regex", "anyhow", "thiserror", "tracing", "log", "env_logger",
 MAIN_PLAIN = "def main() -> None:\n    println(1)\n"
 
 
-def build_cases(chk):
+def build_cases(chk, table=()):
     """well-typed projects for real generation: (name, stem, files, expectations)"""
     rng = chk.rng
     cases = []
@@ -238,6 +238,43 @@ def build_cases(chk):
     add("dep_crate", {"main.incn": "from util import one\n\ndef main() -> None:\n    println(one())\n",
                       "util.incn": "from rust::rand import random\n\npub def one() -> int:\n    return 1\n"})
     add("dep_plain", {"main.incn": "from util import one\n\ndef main() -> None:\n    println(one())\n", "util.incn": "pub def one() -> int:\n    return 1\n"})
+    # ---- interactions between dependency lines (names that occur inside other crates' names, feature
+    #      lists or the fixed feature-driven lines), crossed with the serde / async / web features
+    FEATURES = {
+        "plain": ("", MAIN_PLAIN),
+        "serde": ("@derive(Serialize)\nmodel P:\n    x: int\n\n", MAIN_PLAIN),
+        "async": ("async def f() -> int:\n    return 1\n\n", MAIN_PLAIN),
+        "serde_async": ("@derive(Serialize)\nmodel P:\n    x: int\n\nasync def f() -> int:\n    return 1\n\n", MAIN_PLAIN),
+        "web": ("from web import App, route, Response\n\n@route(\"/\")\nasync def index() -> Response:\n    return Response.html(\"<p>hi</p>\")\n\n",
+                "def main() -> None:\n    app = App()\n    app.run(host=\"127.0.0.1\", port=8080)\n"),
+    }
+    names = [n for n, _ in table]
+    fixed_text = {
+        "plain": "incan_stdlib incan_derive",
+        "serde": 'serde = { version = "1.0", features = ["derive"] } serde_json features = ["json"]',
+        "async": 'tokio = { version = "1", features = ["rt-multi-thread", "macros", "time", "sync"] }',
+        "web": 'axum tokio = { version = "1", features = ["rt-multi-thread", "macros", "time", "sync", "net"] } serde serde_json features = ["web", "json"]',
+    }
+    fixed_text["serde_async"] = fixed_text["serde"] + " " + fixed_text["async"]
+    k = 0
+    for feat, (pre, main) in FEATURES.items():
+        # every table crate at once (all pairwise interactions in one manifest)
+        add("all_%s" % feat, {"main.incn": "".join("import rust::%s\n" % n for n in names) + "\n" + pre + main}, crates=names)
+        # crates whose name occurs in a line this feature writes
+        for x in names:
+            if x in fixed_text[feat] and x not in ("serde", "serde_json", "tokio", "axum"):
+                add("feat_%s_%s" % (feat, x), {"main.incn": "import rust::%s\n\n" % x + pre + main}, crates=[x])
+    for x in names:
+        for y, spec in table:
+            if x != y and (x in y or x in spec):
+                for feat in ("plain", "async"):
+                    pre, main = FEATURES[feat]
+                    k += 1
+                    add("pair%d_%s" % (k, feat), {"main.incn": "import rust::%s\nimport rust::%s\n\n" % (x, y) + pre + main}, crates=[x, y])
+                # the two imports in different modules
+                k += 1
+                add("pair%d_dep" % k, {"main.incn": "import rust::%s\nfrom util import one\n\ndef main() -> None:\n    println(one())\n" % x,
+                                       "util.incn": "import rust::%s\n\npub def one() -> int:\n    return 1\n" % y}, crates=[x, y])
     for i, stem in enumerate(["hello", "my_prog", "a-b", "A9", "_x", "my prog", "1abc", "a.b", 'a"b', "x" * 40]):
         add("name_%d" % i, {stem + ".incn": MAIN_PLAIN}, stem=stem)
     return cases
@@ -335,7 +372,7 @@ def run(chk):
             edge_list(mS), edge_list(mA), edge_list(web_edges),
             "[" + "; ".join("(%s, %s)" % (zs(n), zs(sp)) for n, sp in table) + "]")
 
-    build = build_cases(chk)
+    build = build_cases(chk, table)
     scratch = os.path.join(vlib.BUILD, "c15-%d" % os.getpid())
     shutil.rmtree(scratch, ignore_errors=True)
     os.makedirs(os.path.join(scratch, "stubbin"))
@@ -456,6 +493,14 @@ def run(chk):
                         continue
                     fails.append({"case": c["name"], "files": c["files"], "why": "generated Rust refers to crate `%s` but Cargo.toml does not declare it" % r,
                                   "expected": "dependency on " + r, "actual": declared})
+            # (1b) every `rust::` import of every module is declared, exactly once
+            for m in [ms] + list(ds):
+                if not m["ok"]:
+                    continue
+                for cr in m["crates"]:
+                    if declared.count(cr) != 1:
+                        fails.append({"case": c["name"], "files": c["files"], "why": "`rust::%s` is imported but Cargo.toml declares it %d times" % (cr, declared.count(cr)),
+                                      "expected": "one dependency on " + cr, "actual": declared})
             # (2) declares only what is needed
             mods_ok = [m for m in [ms] + list(ds) if m["ok"]]
             needed = {"incan_stdlib", "incan_derive"}
